@@ -1332,10 +1332,11 @@ func (a *xAnalysis) atReturn(s *xState, ret *Instr) {
 }
 
 func (a *xAnalysis) recordConsumption(p string, adv *Lin, wants []*Lin, s *xState, at *Instr) {
+	// the stream must have been consumed at least up to one of the allowed ends (the upper side is the EXTENT rule:
+	// no access beyond the contract); a pointer that ends inside the trailing tag region has consumed the data region
 	ok := false
 	for _, w := range wants {
-		d := adv.Sub(w)
-		if ProveNonNeg(d, s.facts) && ProveNonNeg(d.Scale(-1), s.facts) {
+		if ProveNonNeg(adv.Sub(w), s.facts) {
 			ok = true
 		}
 	}
@@ -1352,7 +1353,7 @@ func (a *xAnalysis) recordConsumption(p string, adv *Lin, wants []*Lin, s *xStat
 		for _, f := range s.facts {
 			fs = append(fs, factStr(f))
 		}
-		detail += "; cannot prove that the stream was consumed exactly; path facts {" + strings.Join(fs, "; ") + "}"
+		detail += "; cannot prove that the stream was consumed to its end; path facts {" + strings.Join(fs, "; ") + "}"
 	}
 	for i, o := range a.res.consumption {
 		if o.Key == key {
